@@ -107,8 +107,8 @@ type workerSite struct {
 	parent  *ssa.Function
 	pos     token.Pos
 	runner  string
-	fn      *ssa.Function        // worker body
-	closure *ssa.MakeClosure     // bindings of fn (may be nil)
+	fn      *ssa.Function                                      // worker body
+	closure *ssa.MakeClosure                                   // bindings of fn (may be nil)
 	env     func(j int) (shared bool, name string, known bool) // classification of free variable j
 	own     uint64
 	private uint64
